@@ -62,20 +62,31 @@ def gen_params(ctx, run, entry=None):
     policy = wl.choice(core.POLICIES)
     sib_ok = wl.random() < ctx.get('p_sibling', 0) and e.get('sibling') is not None
     ops = histories.gen_history(wl, e['meta'], n_ops, two_threads=two, xarray_ok=xr_ok, sibling_ok=sib_ok, nudge=True)
+    other_entry = None
+    if not two and wl.random() < ctx.get('p_other', 0):
+        # a reader on another file of the library takes part (process-wide state keyed by something that two
+        # files can share would show as a wrong value on either)
+        o = ctx['lib'][wl.randrange(len(ctx['lib']))]
+        if o is not e:
+            ops = histories.add_other(wl, ops, o['meta'])
+            other_entry = o
     pre_p = wl.choice([0, 0.01]) if two else 0     # half of the two-caller histories pre-empt at line level
-    return e, two, policy, ops, ([pre_p, f"{ctx['seed']}:{run}"] if pre_p else None)
+    return e, two, policy, ops, ([pre_p, f"{ctx['seed']}:{run}"] if pre_p else None), other_entry
 
 
-def one_run(ctx, run, ops=None, trace=None, entry=None, preempt='gen'):
+def one_run(ctx, run, ops=None, trace=None, entry=None, preempt='gen', other_entry='gen'):
     seed = ctx['seed']
-    e, two, policy, gen_ops, gen_pre = gen_params(ctx, run, entry)
+    e, two, policy, gen_ops, gen_pre, gen_other = gen_params(ctx, run, entry)
     if preempt == 'gen':
         preempt = gen_pre
+    if other_entry == 'gen':
+        other_entry = gen_other
     m = e['meta']
     if ops is None:
         ops = gen_ops
     sibling = e.get('sibling') if histories.uses_sibling(ops) else None
-    truth = histories.truth_for(e['data'], ops, sibling=sibling)
+    other = other_entry['data'] if (other_entry is not None and histories.uses_other(ops)) else None
+    truth = histories.truth_for(e['data'], ops, sibling=sibling, other=other)
     chooser = core.ReplayChooser(trace) if trace is not None else \
         core.make_chooser(policy, core.stream(seed, run, 'schedule'), est_steps=300)
     states = set()
@@ -106,7 +117,8 @@ def one_run(ctx, run, ops=None, trace=None, entry=None, preempt='gen'):
             if prev is not None and prev != op[2][0]:
                 probes['method_switch_on_same_object'] += 1
             last_by_slot[op[1]] = op[2][0]
-    outcomes, fs, r = histories.execute(e['data'], ops, chooser, observer=observer, sibling=sibling, preempt=preempt)
+    outcomes, fs, r = histories.execute(e['data'], ops, chooser, observer=observer, sibling=sibling, preempt=preempt,
+                                        other=other)
     if preempt:
         probes['line_level_preemption'] += 1
     rec = {'run': run, 'file': e['name'], 'layout': f"{m['kind']}/{m['layout']}", 'ops': len(ops), 'calls': 0,
@@ -115,6 +127,7 @@ def one_run(ctx, run, ops=None, trace=None, entry=None, preempt='gen'):
     if r.status != 'ok':
         rec['violation'] = _viol(e, ops, None, f'history-{r.status}', f'history execution ended with {r.status}', r, m)
         rec['violation']['preempt'] = preempt
+        rec['violation']['other'] = _other_ref(other_entry)
         return rec
     openers = {}
     seen_calls = collections.Counter()
@@ -143,6 +156,7 @@ def one_run(ctx, run, ops=None, trace=None, entry=None, preempt='gen'):
                 rec['violation'] = _viol(e, ops, i, cls, f'op {i} {op[2]} via {openers[op[1]]} gave {got}, fresh '
                                                         f'reader gives {want}', r, m)
                 rec['violation']['preempt'] = preempt
+                rec['violation']['other'] = _other_ref(other_entry)
                 return rec
     if any(v > 1 for v in seen_calls.values()):
         rec['probes']['identical_call_repeated_on_same_object'] = 1
@@ -155,6 +169,10 @@ def one_run(ctx, run, ops=None, trace=None, entry=None, preempt='gen'):
     for o in set(openers.values()):
         rec['probes']['opener:' + o] = 1
     return rec
+
+
+def _other_ref(o):
+    return None if o is None else {'file': o['name'], 'spec': o['spec']}
 
 
 def _viol(e, ops, i, cls, what, r, m):
@@ -172,7 +190,7 @@ def replay_doc(doc, data):
     e = {'name': doc['file'], 'data': data, 'meta': m, 'spec': doc['spec'], 'sibling': filelib.make_sibling(data, m)}
     ctx = {'seed': doc.get('seed', 0), 'lib': [e], 'p_two_threads': 0, 'p_xarray': 0}
     rec = one_run(ctx, doc.get('run', 0), ops=[list(o) for o in doc['ops']], trace=doc['trace'], entry=e,
-                  preempt=doc.get('preempt'))
+                  preempt=doc.get('preempt'), other_entry=doc.get('_other_entry'))
     v = rec['violation']
     if not v:
         return None, ''
@@ -212,8 +230,17 @@ def minimise(doc, data):
     return d, True
 
 
+def _with_other(doc, scratch):
+    if doc.get('other') and '_other_entry' not in doc:
+        od = load_file(doc['other'], scratch)
+        doc = dict(doc, _other_entry={'name': doc['other']['file'], 'data': od, 'meta': filelib.read_meta(od),
+                                      'spec': doc['other']['spec']})
+    return doc
+
+
 def _child(doc, scratch, q):
     try:
+        doc = _with_other(doc, scratch)
         q.put(replay_doc(doc, load_file(doc, scratch)))
     except BaseException as e:
         q.put(('error', repr(e)))
@@ -266,7 +293,8 @@ def _main(tier, seed, scratch, t0):
     lib = filelib.build(seed, scratch, n_random=6 if quick else 60)
     for e in lib:
         e['sibling'] = filelib.make_sibling(e['data'], e['meta'])
-    ctx = {'seed': seed, 'lib': lib, 'p_two_threads': 0.15 if quick else 0.3, 'p_xarray': 0.1, 'p_sibling': 0.3}
+    ctx = {'seed': seed, 'lib': lib, 'p_two_threads': 0.15 if quick else 0.3, 'p_xarray': 0.1, 'p_sibling': 0.3,
+           'p_other': 0.2}
     for run in range(10 ** 6, 10 ** 6 + (6 if quick else 30)):
         a, b = one_run(ctx, run), one_run(ctx, run)
         if a['ed'] != b['ed'] or a['states'] != b['states']:
@@ -298,12 +326,12 @@ def _main(tier, seed, scratch, t0):
             viols.setdefault(rec['violation']['signature'], []).append((run, rec['violation']))
     for c in crashed:
         run = c['item']
-        e, _, _, ops, _ = gen_params(ctx, run)
+        e, _, _, ops, _, _ = gen_params(ctx, run)
         viols.setdefault('worker_crash', []).append((run, {
             'signature': 'worker_crash', 'what': 'the reading process died while executing this history',
             'file': e['name'], 'spec': e['spec'], 'ops': ops, 'trace': [], 'index': None, 'crash': True}))
     for run in (0, 1, 2):
-        e, _, _, ops, _ = gen_params(ctx, run)
+        e, _, _, ops, _, _ = gen_params(ctx, run)
         samples.append({'run': run, 'file': e['name'], 'history': ops[:14]})
     known = common.load_known(PID)
     reported = []
@@ -312,15 +340,19 @@ def _main(tier, seed, scratch, t0):
         doc = dict(v, property=PID, seed=seed, run=run, occurrences=len(lst))
         if sig not in known and len(reported) < 8 and not v.get('crash'):
             try:
+                doc = _with_other(doc, scratch)
                 doc, ok = minimise(doc, load_file(doc, scratch))
+                doc.pop('_other_entry', None)
                 doc['minimised'] = ok
             except Exception as ex:
                 doc['minimised'] = False
                 doc['minimise_error'] = repr(ex)
+        doc.pop('_other_entry', None)
         path = common.write_replay(PID, seed, f"{run}-{common.sha(sig.encode())[:8]}", doc)
         reported.append({'signature': sig, 'replay': path, 'what': doc.get('what', '')})
     expected = ['op_with_cache_hit', 'call_served_without_io', 'close_between_calls', 'method_switch_on_same_object',
                 'identical_call_repeated_on_same_object', 'kind:reader', 'kind:emulator', 'kind:xarray', 'kind:sibling',
+                'kind:other',
                 'same_call_on_file_and_sibling',
                 'opener:preload', 'opener:ccs1', 'opener:ccs2', 'opener:blob', 'opener:emulator', 'opener:handle']
     wall = time.time() - t0
@@ -362,7 +394,7 @@ def selftest_digests(seed, n, scratch):
     lib = filelib.build(seed, scratch, n_random=4)
     for e in lib:
         e['sibling'] = filelib.make_sibling(e['data'], e['meta'])
-    ctx = {'seed': seed, 'lib': lib, 'p_two_threads': 0.3, 'p_xarray': 0.1, 'p_sibling': 0.3}
+    ctx = {'seed': seed, 'lib': lib, 'p_two_threads': 0.3, 'p_xarray': 0.1, 'p_sibling': 0.3, 'p_other': 0.2}
 
     def f(c, run):
         r = one_run(c, run)
